@@ -612,6 +612,7 @@ def render_fn(fs, out, unit, log):
                     raise LostAnchor(f"fn {fs.path}: case_split: arm {i} has no block body")
                 ins(body_open + 1, " proof { assume(false); } /* R16: arm verified in another copy */ ", {"type": "rewrite", "rule": "R16", "fn": flabel, "unit": unit, "tline": tline}, prio=9)
             log["rewrites"].append({"rule": "R16", "fn": flabel, "match": m.group(1), "arms": len(arms), "keep": keep})
+            log["trusted"].append(f"R16 case_split: copy {flabel} verifies arms {keep} of the {len(arms)}-arm match; its other arms start with assume(false) and are verified in the sibling copies (cover checked)")
             log.setdefault("case_splits", []).append({"file": relfile, "path": fs.path, "match": m.group(1), "arms": len(arms), "keep": keep, "fn": flabel})
         elif kind in ("before", "after", "replace", "replace?", "before?", "after?"):
             m = re.match(r"/(.+)/(?:#(\d+)of(\d+))?\s*(.*)$", arg)
